@@ -14,11 +14,9 @@ Definition atom_char (c : char) : bool :=
 Definition atom_ok (s : str) : bool :=
   match s with [] => false | _ => forallb atom_char s end.
 
-(* (ddSMT's scanner used to accept a quote or a bar inside an atom; since fix F41 it does not, and the liberal
-   class coincides with the standard one) *)
-Definition atom_char_tl (c : char) : bool := atom_char c.
-Definition atom_ok_lib (s : str) : bool :=
-  match s with [] => false | c :: tl => atom_char c && forallb atom_char_tl tl end.
+(* (ddSMT's scanner used to accept a quote or a bar inside an atom; since fix F41 it does not: the liberal class
+   of earlier versions is kept as a name only and is the standard one) *)
+Definition atom_ok_lib (s : str) : bool := atom_ok s.
 
 (* body of a string literal: any characters, a double quote only doubled *)
 Fixpoint strbody_ok (s : str) : bool :=
